@@ -33,3 +33,4 @@ import BU.Properties.C12_GenPub
 #print axioms C12Gen.gen_segwit_script_to_hash
 #print axioms C12GenPub.gen_p2pkh_of_pubkey
 #print axioms C12GenPub.gen_p2wpkh_of_pubkey
+#print axioms C12GenPub.gen_address_init_script
